@@ -1615,11 +1615,18 @@ class CryptographyEngine(api.CryptographicEngine):
                     )
 
             try:
+                digest_algorithm = hash_algorithm()
+                # RFC 8017, sections 8.1.2 and 8.2.2: a signature whose
+                # length is not the length of the modulus is invalid. The
+                # backend accepts an RSASSA-PSS signature whose leading
+                # zero octet was removed.
+                if len(signature) != (public_key.key_size + 7) // 8:
+                    return False
                 public_key.verify(
                     signature,
                     message,
                     padding,
-                    hash_algorithm()
+                    digest_algorithm
                 )
                 return True
             except errors.InvalidSignature:
